@@ -141,17 +141,19 @@ def columnsOut {α : Type} (b : Batch α) (offset count : Nat) : List String →
               | .ok cs => .ok ((n, s) :: cs)
   | _, _ => .ok []
 
-/-- `convert_to_output_format` (with the `fix:` that clamps OFFSET to the result length). -/
-def convertToOutput {α : Type} (t : TaskShape) (b : Batch α) : Except Fault (Output α) :=
+/-- `convert_to_output_format` (with the `fix:`es that clamp OFFSET to the result length and return the
+    validation error instead of unwrapping it): a result of inconsistent shape is a FatalError VALUE
+    (`push_result` hands it to `fail_with_no_lock`); index errors would still be panics. -/
+def convertToOutput {α : Type} (t : TaskShape) (b : Batch α) : Res (Output α) :=
   let limit := t.limit.limit
   let offset := min t.limit.offset b.len
   let count := min limit (b.len - offset)
-  if !b.validate then .error .unwrap else
+  if !b.validate then .err .fatal else
   match (if t.rowformat then (recordsFrom b t.sources offset count).map some else .ok none) with
-  | .error f => .error f
+  | .error f => .fault f
   | .ok rows =>
     match columnsOut b offset count t.outputColnames t.sources with
-    | .error f => .error f
+    | .error f => .fault f
     | .ok columns => .ok { colnames := t.outputColnames, rows := rows, columns := columns }
 
 /-- The early answer of `QueryTask::new` for a table without partitions (after the `fix:`): one empty
